@@ -278,8 +278,9 @@ def static_facts(rep, c):
     rep.parts['static_facts'] = {'guard_writers': sorted(set(writers)), 'height_lockers': sorted(set(lockers)),
                                  'update_height_callers': sorted(set(callers))}
     if not ok_w:
-        rep.violations.append({'replay': save_cex(PID, {'harness': 'static', 'writers': sorted(set(writers))}),
-                               'summary': 'height cell written outside update_height: %s' % sorted(set(writers)), 'role': 'static.writers'})
+        # a structural fact, not a behaviour: the single-step proof no longer covers every write, so it is the concurrent
+        # harness (which runs the writers' real code) that has to decide; nothing it finds -> inconclusive, not a violation
+        rep.extra['unexpected_height_writers'] = sorted(set(writers))
     if not ok_l:
         rep.inconclusive.append('height mutex locked from unexpected bodies: %s' % sorted(set(lockers)))
 
@@ -321,6 +322,33 @@ def report(rep, name, ex):
         else:
             rep.inconclusive.append('%s: counterexample %s did not reproduce natively (%s): %s' % (name, v.kind, nat.get('why'), path))
 
+def interleaved_events(cex, mdl):
+    """Native event order from the model's trail: first poll of a poll_height task = the periodic poll starts,
+    `lin get_info` = its answer arrives, first poll of a new_block task = the notification is handled."""
+    import re as _re
+    ev = []
+    seen = set()
+    order_n, order_p = [], []
+    in_flight = False
+    for stp in cex.get('trail', []):
+        lab = stp['step']
+        mm = _re.match(r'^poll (new_block|poll_height)#(\d+)$', lab)
+        if mm and mm.group(2) not in seen:
+            seen.add(mm.group(2))
+            if mm.group(1) == 'new_block':
+                k = len(order_n)
+                order_n.append(mm.group(2))
+                ev.append({'op': 'notify', 'h': int(mdl.get('n%d' % k, 0) or 0)})
+            elif not in_flight:
+                in_flight = True
+                ev.append({'op': 'poll_start'})
+        if lab.startswith('lin get_info#') and in_flight:
+            k = len(order_p)
+            order_p.append(lab)
+            ev.append({'op': 'poll_answer', 'h': int(mdl.get('p%d' % k, 0) or 0)})
+            in_flight = False
+    return ev
+
 def native_check(cex):
     """Replay against the real BlockWatcher over the fake lightning-rpc socket."""
     kind = cex['kind']
@@ -331,6 +359,12 @@ def native_check(cex):
                   'notifications': [int(mdl[k]) for k in sorted(mdl) if k.startswith('n') and k[1:].isdigit()],
                   'polls': [int(mdl[k]) for k in sorted(mdl) if k.startswith('p') and k[1:].isdigit()]}
         o = replay.run('height', script)
+        if not (o.get('outcome') == 'ok' and any(x['height'] != x['expected_max'] for x in o.get('observations', []))):
+            # sequential delivery shows nothing: replay the model's interleaving (a poll in flight while notifications arrive)
+            ev = interleaved_events(cex, mdl)
+            if ev:
+                script = {'init': script['init'], 'events': ev}
+                o = replay.run('height', script)
         cexp = o.get('observations', [])
         bad = o.get('outcome') == 'ok' and any(x['height'] != x['expected_max'] for x in cexp)
         return {'reproduced': bool(bad), 'script': script, 'native': o, 'why': 'heights match the running maximum'}
@@ -369,6 +403,9 @@ def main(tier, seed, args):
         h = LoopHarness(c, it, fl)
         ex = run_explorer(rep, c, h, 'poll_loop[%d iterations,%d faults]' % (it, fl))
         report(rep, 'poll_loop', ex)
+    if rep.extra.get('unexpected_height_writers') and not rep.violations:
+        rep.inconclusive.append('height cell written outside update_height (%s) and no violating run found within the bounds'
+                                % rep.extra['unexpected_height_writers'])
     finish(rep, [c], './check C20 --tier ' + tier)
 
 def replay_cex(path):
